@@ -253,6 +253,14 @@ func (env *Env) ctor(t Ty, parsed bool) px.Type {
 		return types.NewIterableType(env.ctor(t.Ts[0], parsed))
 	case "itr":
 		return types.NewIteratorType(env.ctor(t.Ts[0], parsed))
+	case "call":
+		var ps [3]px.Type // an absent part is an UNTYPED nil
+		for i, p := range CallParts(t) {
+			if p != nil {
+				ps[i] = env.ctor(*p, parsed)
+			}
+		}
+		return types.NewCallableType(ps[0], ps[1], ps[2])
 	case "rt":
 		var pat *types.RegexpType
 		if len(t.S) > 2 {
